@@ -387,7 +387,7 @@ def run(prop_cls, tier, seed, replay=None):
                     still = True
         except Exception:  # noqa: BLE001
             still = True
-        if still:
+        if still or k["id"] in known_hit:
             known_lines.append(f"KNOWN-FINDING: property={pid} {k['id']} {k['what']}")
 
     # 6. verdict
